@@ -34,6 +34,8 @@ type Shared struct {
 	// FailNth was set (SetFailNth).
 	FailLog error
 	FailNth int
+	// StateErrs: the next StateErrs calls of State() fail (a transient error)
+	StateErrs int
 	nLog    int
 }
 
@@ -183,7 +185,16 @@ func (m *MemConsensus) RmPeer(ctx context.Context, p peer.ID) error {
 	return nil
 }
 
-func (m *MemConsensus) State(context.Context) (state.ReadOnly, error) { return m.S.State, nil }
+func (m *MemConsensus) State(context.Context) (state.ReadOnly, error) {
+	m.S.mu.Lock()
+	if m.S.StateErrs > 0 {
+		m.S.StateErrs--
+		m.S.mu.Unlock()
+		return nil, errors.New("model consensus: state not available right now")
+	}
+	m.S.mu.Unlock()
+	return m.S.State, nil
+}
 
 func (m *MemConsensus) Peers(context.Context) ([]peer.ID, error) {
 	m.S.mu.Lock()
